@@ -25,6 +25,11 @@ application named, pings on 0 (`C18_server_send_streams`).  The client emits onl
 by the server's createStream `_result` (`C18_client_message_streams`), remembers exactly that id
 (`C18_client_active_stream`) and sends deleteStream, metadata and media on it, everything else on 0
 (`C18_client_send_streams`).
+"At any uptime" — THE CLOCK ON WHAT A SESSION SENDS BY ITSELF (Lemmas/SrvTs.lean, CliTs.lean: the walk once more, with a
+predicate on the timestamp): every message the server emits while handling a message, accepting or rejecting a
+request carries `epoch now` = uptime mod 2^32 of that call (`C18_server_clock_on_emissions`); so does everything
+the client emits while handling a message, except its chunk-size announcement, which the library stamps 0
+(`C18_client_clock_on_emissions`).  `now` is an arbitrary natural number: 2^24 and 2^32 are not special.
 -/
 import Rml.Model.ServerSession
 import Rml.Model.ClientSession
@@ -34,6 +39,8 @@ import Rml.Lemmas.SrvEmit
 import Rml.Lemmas.CliEmit
 import Rml.Lemmas.SrvMsid
 import Rml.Lemmas.CliMsid
+import Rml.Lemmas.SrvTs
+import Rml.Lemmas.CliTs
 import Rml.Lemmas.WfSteps
 namespace Rml.C18
 open Rml Rml.Chunk Rml.Amf0 Rml.Msgs Rml.Sess Rml.Emit
@@ -658,5 +665,39 @@ theorem C18_client_send_streams (s s' : Cli.State) (hi : CliEmit.Inv s) (now : N
         simp only [Prod.mk.injEq, Except.ok.injEq, Cli.Res.out.injEq] at h
         obtain ⟨typ, body, _, hem, _⟩ := WfSteps.cli_send_exact hs (by cases v <;> exact trivial) hts (CliEmit.guard_sid hi hg)
         rw [← h.1, ← h.2]; exact ⟨_, hem, guard_active hg⟩
+
+/-! ## the session's clock on what it sends by itself -/
+
+instance tsNow (now : Nat) : SrvTs.HasNow (fun t => t = epoch now) now := ⟨⟨SrvEmit.epoch_lt now, rfl⟩⟩
+
+/-- **the session's clock on everything it sends by itself (server).**  Every message the server emits while
+    handling a message, accepting or rejecting a request carries the clock reading of that call, `epoch now`
+    = uptime mod 2^32 (`C18_clock`) — at any uptime, past 2^24 and past the 2^32 wrap alike; only media,
+    whose timestamp the application supplies, is stamped otherwise (`C18_server_calls`). -/
+theorem C18_server_clock_on_emissions (s s' : Srv.State) (hi : SrvEmit.Inv s) (now : Nat) (rs : List Srv.Res) :
+    (∀ p m, p.msid < 4294967296 → Srv.handleMessage s now p m = .ok (s', rs) →
+      ∃ xs, Emits s.ser s'.ser xs ∧ xs.map (·.1) = SrvEmit.outs rs ∧ ∀ x ∈ xs, x.2.ts = epoch now) ∧
+    (∀ id, Srv.acceptRequest s now id = (s', .ok rs) →
+      ∃ xs, Emits s.ser s'.ser xs ∧ xs.map (·.1) = SrvEmit.outs rs ∧ ∀ x ∈ xs, x.2.ts = epoch now) ∧
+    (∀ id code desc, Srv.rejectRequest s now id code desc = (s', .ok rs) →
+      ∃ xs, Emits s.ser s'.ser xs ∧ xs.map (·.1) = SrvEmit.outs rs ∧ ∀ x ∈ xs, x.2.ts = epoch now) := by
+  refine ⟨?_, ?_, ?_⟩
+  · intro p m hm h
+    exact (SrvTs.step_handleMessage (K := fun t => t = epoch now) hm h).1
+  · intro id h
+    exact (SrvTs.acceptRequest_step (K := fun t => t = epoch now) hi h).2 rs rfl
+  · intro id code desc h
+    exact (SrvTs.rejectRequest_step (K := fun t => t = epoch now) hi h).2 rs rfl
+
+instance tsNow0 (now : Nat) : SrvTs.HasNow (fun t => t = epoch now ∨ t = 0) now := ⟨⟨SrvEmit.epoch_lt now, Or.inl rfl⟩⟩
+instance tsZero (now : Nat) : SrvMsid.HasZero (fun t => t = epoch now ∨ t = 0) :=
+  ⟨⟨by show (0 : Nat) < 4294967296; omega, Or.inr rfl⟩⟩
+
+/-- the same for the client: everything it emits while handling a message carries the clock reading of the
+    call — except its chunk-size announcement, which the library stamps 0 -/
+theorem C18_client_clock_on_emissions (s s' : Cli.State) (hi : CliEmit.Inv s) (now : Nat) (p : Msg) (m : RtmpMsg)
+    (rs : List Cli.Res) (h : Cli.handleMessage s now p m = (s', .ok rs)) :
+    ∃ xs, Emits s.ser s'.ser xs ∧ xs.map (·.1) = CliEmit.outs rs ∧ ∀ x ∈ xs, x.2.ts = epoch now ∨ x.2.ts = 0 :=
+  (CliTs.handleMessage_step (K := fun t => t = epoch now ∨ t = 0) hi h).2 rs rfl
 
 end Rml.C18
